@@ -46,6 +46,8 @@ type loopInfo struct {
 	allocStores map[string][]*ssa.Alloc // heap -> struct-typed local allocs whose field is stored (keyed havoc)
 	calls   []*ssa.CallCommon             // contract calls whose assigns are resolved at havoc time
 	ptrStores map[string][]ssa.Value      // heap -> pointer values (loads of cells) whose field is stored
+	keyCheckLater bool                    // havocLoop itself checks that keyed targets do not read heaps the loop writes
+	mapStores []ssa.Value                 // map operands of MapUpdate/delete in the loop (keyed havoc when evaluable at the header)
 }
 
 type Exec struct {
@@ -361,8 +363,12 @@ func (x *Exec) scanLoop(li *loopInfo) {
 			case *ssa.Store:
 				x.rootOf(in.Addr, li)
 			case *ssa.MapUpdate:
-				d, v, _, _ := x.E.mapHeaps(in.Map.Type())
-				li.heaps[d], li.heaps[v] = true, true
+				if li.ptrStores != nil {
+					li.mapStores = append(li.mapStores, in.Map)
+				} else {
+					d, v, _, _ := x.E.mapHeaps(in.Map.Type())
+					li.heaps[d], li.heaps[v] = true, true
+				}
 			case *ssa.Call:
 				x.scanCall(&in.Call, li)
 			case *ssa.Defer:
@@ -388,8 +394,12 @@ func (x *Exec) scanCall(call *ssa.CallCommon, li *loopInfo) {
 		case "copy":
 			x.rootOfSliceValue(call.Args[0], li)
 		case "delete":
-			d, v, _, _ := x.E.mapHeaps(call.Args[0].Type())
-			li.heaps[d], li.heaps[v] = true, true
+			if li.ptrStores != nil {
+				li.mapStores = append(li.mapStores, call.Args[0])
+			} else {
+				d, v, _, _ := x.E.mapHeaps(call.Args[0].Type())
+				li.heaps[d], li.heaps[v] = true, true
+			}
 		}
 		return
 	}
@@ -566,6 +576,10 @@ func indexOf(b *ssa.BasicBlock, in ssa.Instruction) int {
 // havocked, then the invariants are assumed), later arrivals end there.
 func (x *Exec) atCut(s *State, cs *spec.CutSpec) bool {
 	env := x.specEnv(s, nil)
+	if len(cs.Invariants) == 0 {
+		x.assumeUses(s, env, cs.Uses)
+		return true
+	}
 	for i, inv := range cs.Invariants {
 		x.addObl(s, "cut", cs.Label+":"+clauseLabel(inv, i), x.evalBool(env, inv.E), x.clauseProps(inv), inv.Src)
 	}
@@ -704,8 +718,8 @@ func (x *Exec) run() {
 			if gi.Pkg == nil || x.fn.Pkg == nil || gi.Pkg != x.fn.Pkg.Pkg {
 				continue // only the invariants of the function's own package are assumed
 			}
-			if !x.fnMentionsGlobals(identsOf(gi.E)) {
-				continue // ... and only when the function reads one of the variables the invariant is about
+			if !x.fnMentionsGlobals(identsOf(gi.E)) && !x.contractMentions(identsOf(gi.E)) {
+				continue // ... and only when the function (or its contract) reads one of the variables the invariant is about
 			}
 			genv := x.specEnv(s, nil)
 			genv.Pkg = gi.Pkg
@@ -724,6 +738,53 @@ func (x *Exec) run() {
 	}
 	x.entryPC = append([]*smt.Term{}, s.pc...)
 	x.execBlock(s, x.fn.Blocks[0], nil)
+}
+
+// contractMentions: does the function's own contract name one of these package variables?
+func (x *Exec) contractMentions(names []string) bool {
+	if x.c == nil {
+		return false
+	}
+	want := map[string]bool{}
+	for _, n := range names {
+		if x.fn.Pkg != nil {
+			if _, isGlobal := x.fn.Pkg.Members[n].(*ssa.Global); isGlobal {
+				want[n] = true
+			}
+		}
+	}
+	if len(want) == 0 {
+		return false
+	}
+	var cls []*spec.Clause
+	cls = append(cls, x.c.Requires...)
+	cls = append(cls, x.c.Ensures...)
+	for _, l := range x.c.Loops {
+		cls = append(cls, l.Invariants...)
+	}
+	// ... and the contracts of the functions it calls (their postconditions are assumed here)
+	for _, b := range x.fn.Blocks {
+		for _, in := range b.Instrs {
+			if c, ok := in.(*ssa.Call); ok {
+				if callee := staticFn(&c.Call); callee != nil {
+					if obj, _ := callee.Object().(*types.Func); obj != nil {
+						if cc, ok := x.E.Contracts[obj]; ok && cc.FuncContract != nil {
+							cls = append(cls, cc.Requires...)
+							cls = append(cls, cc.Ensures...)
+						}
+					}
+				}
+			}
+		}
+	}
+	for _, c := range cls {
+		for _, id := range identsOf(c.E) {
+			if want[id] {
+				return true
+			}
+		}
+	}
+	return false
 }
 
 // fnMentionsGlobals: does the function (or a function literal / inlined callee in it) use one of these package variables?
@@ -1103,6 +1164,7 @@ func (x *Exec) execFrom(s *State, b *ssa.BasicBlock, start int, prev *ssa.BasicB
 			// entry
 			env := x.specEnv(s, nil)
 			env.LoopHeader = b
+			x.assumeUses(s, env, li.spec.Uses)
 			for i, inv := range li.spec.Invariants {
 				x.curInstr = b.Instrs[0]
 				x.addObl(s, "inv-init", fmt.Sprintf("loop%d:%s", li.ordinal, clauseLabel(inv, i)), x.evalBool(env, inv.E), x.clauseProps(inv), inv.Src)
@@ -1113,6 +1175,7 @@ func (x *Exec) execFrom(s *State, b *ssa.BasicBlock, start int, prev *ssa.BasicB
 			for _, inv := range li.spec.Invariants {
 				s.assume(x.evalBool(env, inv.E))
 			}
+			x.assumeUses(s, env, li.spec.Uses)
 		}
 		var next *ssa.BasicBlock
 		for idx := start; idx < len(b.Instrs); idx++ {
@@ -1278,6 +1341,7 @@ func (x *Exec) havocLoop(s *State, li *loopInfo) {
 			keyed[h] = append(keyed[h], tv.T)
 		}
 	}
+	li.keyCheckLater = true
 	for _, call := range li.calls {
 		c, _ := x.calleeContract(call)
 		ts, all := x.contractHeaps(c, call, s, li)
@@ -1290,6 +1354,42 @@ func (x *Exec) havocLoop(s *State, li *loopInfo) {
 				whole[t.Heap] = true
 			} else {
 				keyed[t.Heap] = append(keyed[t.Heap], t.Key)
+			}
+		}
+	}
+	// maps updated in the loop: only the map whose reference can be named at the header (a value defined before
+	// the loop, or a field the loop does not write, of such a value) changes; otherwise every map of that type
+	for _, mv := range li.mapStores {
+		d, v, _, _ := x.E.mapHeaps(mv.Type())
+		deps := map[string]bool{}
+		mt, ok := x.headerTerm(s, li, mv, deps, 0)
+		if ok {
+			for h := range deps {
+				if whole[h] || len(keyed[h]) > 0 {
+					ok = false
+				}
+			}
+		}
+		if !ok {
+			whole[d], whole[v] = true, true
+			continue
+		}
+		keyed[d] = append(keyed[d], mt)
+		keyed[v] = append(keyed[v], mt)
+	}
+	// a key that reads a heap this loop writes is not stable across iterations: havoc that heap entirely
+	for changed := true; changed; {
+		changed = false
+		for h, keys := range keyed {
+			if whole[h] {
+				continue
+			}
+			for _, k := range keys {
+				if x.keyReadsWritten(k, whole, keyed) {
+					whole[h] = true
+					changed = true
+					break
+				}
 			}
 		}
 	}
@@ -1320,6 +1420,82 @@ func (x *Exec) havocLoop(s *State, li *loopInfo) {
 			x.havocTarget(env, a, tag)
 		}
 	}
+}
+
+// headerTerm names, in the state at a loop header, the value that an SSA value computed inside the loop will have
+// in every iteration: values defined before the loop, loads of cells the loop does not assign, and loads of fields
+// (heaps recorded in deps; the caller checks the loop does not write them) of such values.
+func (x *Exec) headerTerm(s *State, li *loopInfo, v ssa.Value, deps map[string]bool, depth int) (*smt.Term, bool) {
+	if depth > 4 {
+		return nil, false
+	}
+	in, isInstr := v.(ssa.Instruction)
+	if !isInstr || !li.body[in.Block()] {
+		if ev, ok := s.env[v]; ok {
+			if tv, ok := ev.(TermVal); ok {
+				return tv.T, true
+			}
+		}
+		if _, isParam := v.(*ssa.Parameter); isParam {
+			if tv, ok := x.val(s, v).(TermVal); ok {
+				return tv.T, true
+			}
+		}
+		return nil, false
+	}
+	ld, ok := v.(*ssa.UnOp)
+	if !ok || ld.Op != token.MUL {
+		return nil, false
+	}
+	switch a := ld.X.(type) {
+	case *ssa.Alloc:
+		if li.cells[a] {
+			return nil, false
+		}
+		if tv, ok := s.cells[a].(TermVal); ok {
+			return tv.T, true
+		}
+	case *ssa.FieldAddr:
+		st := a.X.Type().Underlying().(*types.Pointer).Elem()
+		ft := st.Underlying().(*types.Struct).Field(a.Field).Type()
+		if isStruct(ft) {
+			return nil, false
+		}
+		base, ok := x.headerTerm(s, li, a.X, deps, depth+1)
+		if !ok {
+			return nil, false
+		}
+		name, _, _ := x.E.fieldHeap(st, a.Field)
+		deps[name] = true
+		return smt.Select(x.Heap(s, name), base), true
+	}
+	return nil, false
+}
+
+// keyReadsWritten: does the key term read (a version of) a heap that the loop writes?
+func (x *Exec) keyReadsWritten(k *smt.Term, whole map[string]bool, keyed map[string][]*smt.Term) bool {
+	found := false
+	seen := map[int]bool{}
+	var walk func(t *smt.Term)
+	walk = func(t *smt.Term) {
+		if found || seen[t.ID()] {
+			return
+		}
+		seen[t.ID()] = true
+		if t.Op == "var" && t.Sort.Kind == smt.KArr {
+			for h := range x.E.HeapSorts {
+				if (whole[h] || len(keyed[h]) > 0) && (strings.HasPrefix(t.Name, h+"@") || strings.HasPrefix(t.Name, h+"$")) {
+					found = true
+					return
+				}
+			}
+		}
+		for _, a := range t.Args {
+			walk(a)
+		}
+	}
+	walk(k)
+	return found
 }
 
 func (x *Exec) havocAllHeap(s *State, tag string) {
@@ -1434,10 +1610,27 @@ func (x *Exec) finish(s *State, ret *ssa.Return, rs []Val) {
 		x.wrote[t.Heap] = true
 	}
 	// explicit lemma instantiations (the lemmas are proved separately)
-	for _, u := range x.c.Uses {
+	x.assumeUses(s, env, x.c.Uses)
+	for i, en := range x.c.Ensures {
+		goal := x.evalBool(env, en.E)
+		x.addObl(s, "post", clauseLabel(en, i), goal, x.clauseProps(en), en.Src)
+		x.obls[len(x.obls)-1].Clause = en.E
+	}
+	if x.c.AssignsSet {
+		x.frameCheck(s, env)
+	}
+}
+
+// assumeUses assumes the lemma instances named by `use` clauses, arguments evaluated in env's state.
+func (x *Exec) assumeUses(s *State, env *SpecEnv, uses []*spec.Clause) {
+	for _, u := range uses {
 		call, ok := u.E.(*spec.Call)
+		if !ok {
+			x.unsupported("use clause must be a lemma application")
+			continue
+		}
 		id, ok2 := call.Fun.(*spec.Ident)
-		if !ok || !ok2 {
+		if !ok2 {
 			x.unsupported("use clause must be a lemma application")
 			continue
 		}
@@ -1451,14 +1644,6 @@ func (x *Exec) finish(s *State, ret *ssa.Return, rs []Val) {
 			args = append(args, x.eval(env, a))
 		}
 		s.assume(x.lemmaInstance(env, l, args))
-	}
-	for i, en := range x.c.Ensures {
-		goal := x.evalBool(env, en.E)
-		x.addObl(s, "post", clauseLabel(en, i), goal, x.clauseProps(en), en.Src)
-		x.obls[len(x.obls)-1].Clause = en.E
-	}
-	if x.c.AssignsSet {
-		x.frameCheck(s, env)
 	}
 }
 
